@@ -513,7 +513,7 @@ func main() {
 	r := ev.New("C01", "exploration",
 		"atoms: every C0/DEL/C1 code point except newline (quick: NUL,BEL,BS,TAB,ESC,DEL,CSI,OSC), each followed by the tell-tale '[7m'; 37 markup carriers (HTML text/attributes/pre/code/unknown tag, text and attributes after several closing tags in a row and deep inside nested elements, Markdown text/destination/title/code/autolink/alt/raw HTML, gemtext, plain text) x 7 encodings "+
 			"(raw, decimal/hex/zero-padded/semicolon-less references, double-encoded, named) through Markup.Render, Post.String/Preview, Actor.String/Preview; every string field of actors, posts, activities and their nested links (with a name and without one, so that the address itself is displayed), authors and collections as string, list, object, hostile key, entity-in-plain-field, percent-encoded inside a URL (host; path, query and fragment) and raw inside a URL's query or opaque part; "+
-			"13 positions in raw HTTP responses (status line, Content-Type, Location, body, header name) x start/middle/end through pub.New's failure item and through 10 kinds of document that refer to the failing URL (actor outbox, activity actor/object, post author/audience/parent/replies, collection first page), with every related item inspected; UI frames (normal, selection, opening, problem, command footers) for worlds carrying the atoms; widths {1,2,7,80,81}; "+
+			"13 positions in raw HTTP responses (status line, Content-Type, Location, body, header name) x start/middle/end through pub.New's failure item and through 10 kinds of document that refer to the failing URL (actor outbox, activity actor/object, post author/audience/parent/replies, collection first page), with every related item inspected; UI frames (normal, selection, opening, problem, command footers) for worlds carrying the atoms; the bytes the built program writes to a pseudo-terminal for a hostile page; widths {1,2,7,80,81}; "+
 			"distinct_nontrivial = (carrier, atom, encoding) triples")
 	palette = oracle.Palette{Colors: []string{config.Parsed.Style.Colors.Primary, config.Parsed.Style.Colors.Error, config.Parsed.Style.Colors.Highlight, config.Parsed.Style.Colors.Code}}
 	w.Install()
@@ -574,5 +574,6 @@ func main() {
 	r.Assumptions = append(r.Assumptions,
 		"the oracle allows exactly ESC [ P m with P in {0,1,3,4,9,38;2;c,48;2;c} for the four configured colours c, and newline; every other rune with unicode.IsControl, a lone ESC, a raw C1 byte or any other SGR parameter is a violation",
 		"raw response bytes reach servitor through the in-memory peer (Env-B); the UI runs in pass-through mode")
+	e2ePart(r)
 	r.Finish()
 }
